@@ -260,6 +260,21 @@ theorem charge_precedes_store (s : Tower) (node : Node) (signer : Option User) (
   simp [addAppointment, ha, hnt, addUpdateAppointment, hmu, hna, Gen.slotsFit, hd, e, Db.updateUser, hdu,
     TxIndex.get, hc', storeAppointment, Db.storeAppt]
 
+set_option maxRecDepth 40000 in
+/-- **shrinking_update_refund_precedes_row** (negative): replacing an appointment by a smaller one
+writes the returned slots first and the smaller blob second; the prefix of length one has the
+refund *and* the large blob: this crash instant grants a slot (known finding). Witness: 2049 → 330 bytes. -/
+theorem shrinking_update_refund_precedes_row :
+    let cfg : Cfg := { slots := 3, duration := 10, grace := 3 }
+    let node : Node := { send := fun _ => .ok, get := fun _ => .rpc (-5) }
+    let s0 := (register cfg (boot Db.empty 100 []) 7).1
+    let s := (addAppointment s0 node (some 7) 4 (.junk 1 2049) 0 0).1
+    let s' := (addAppointment s node (some 7) 4 (.junk 2 330) 0 1).1
+    ((s.db.users 7).map (·.slots) = some 1) ∧
+    (((crashDb s.db s'.db 1).users 7).map (·.slots) = some 2) ∧
+    (((crashDb s.db s'.db 1).appts (4, 7)).map (·.blob.len) = some 2049) := by
+  refine ⟨rfl, rfl, rfl⟩
+
 /-- **lkb_written_last**: a poll records the last known block after the listeners have handled
 every block it delivered: it is the last durable write of the poll. -/
 theorem lkb_written_last (cfg : Cfg) (s : Tower) (node : Node) (blocks : List (Nat × Nat × List TxId)) (tip : Nat) :
